@@ -353,6 +353,9 @@ func OpenSessionDebug(first []byte, keys []ech.Key, mode int) (s *Session, err e
 	return openSession(first, keys, -1, mode%3)
 }
 
+// ReusedOption as split value of OpenSessionSplit: one WithKeys option value made earlier from a slice that is refilled in place.
+const ReusedOption = -2
+
 // OpenSessionSplit passes the keys through two WithKeys options, keys[:split] and keys[split:] (split < 0: one option).
 func OpenSessionSplit(first []byte, keys []ech.Key, split int) (s *Session, err error, panicked any) {
 	return openSession(first, keys, split, len(first)%3)
@@ -377,6 +380,17 @@ func openSession(first []byte, keys []ech.Key, split, debugMode int) (s *Session
 		snapshot := slices.Clone(pool)
 		opts = append(opts, ech.WithKeys(pool[:split]), ech.WithKeys(pool[split+1:]))
 		defer func() { s.CallerKeysModified = !reflect.DeepEqual(pool, snapshot) }()
+	} else if keys != nil && split == ReusedOption {
+		// the application made ONE option value at start-up from a slice it owns, which then held other keys (same number); it
+		// refills the slice in place when its keys change and passes that option value to every NewConn: a connection is
+		// configured with the keys the slice holds when the connection is made
+		buf := make([]ech.Key, len(keys))
+		for i := range buf {
+			buf[i] = NewKey(fmt.Sprint("echx-decoy-", i), byte(200+i), AllSuites, "decoy.example").Key()
+		}
+		opt := ech.WithKeys(buf)
+		copy(buf, keys)
+		opts = append(opts, opt)
 	} else if keys != nil {
 		opts = append(opts, ech.WithKeys(keys))
 	}
